@@ -1,0 +1,43 @@
+//go:build verif
+
+// Package verifseed fixes the hash seeds of github.com/arr-ai/hash from the
+// environment (verification hook; compiled in only with the build tag verif).
+// It must be initialised before package rel builds its package-level frozen
+// values, so rel blank-imports it and it imports nothing from this module.
+package verifseed
+
+import (
+	"os"
+	"strconv"
+
+	"github.com/arr-ai/hash"
+)
+
+func init() {
+	s := os.Getenv("VERIF_HASH_SEED")
+	if s == "" {
+		return
+	}
+	n, err := strconv.ParseUint(s, 10, 64)
+	if err != nil {
+		return
+	}
+	// splitmix64
+	next := func() uint64 {
+		n += 0x9e3779b97f4a7c15
+		z := n
+		z = (z ^ (z >> 30)) * 0xbf58476d1ce4e5b9
+		z = (z ^ (z >> 27)) * 0x94d049bb133111eb
+		return z ^ (z >> 31)
+	}
+	a, h := hash.GetSeeds()
+	na := make([]byte, len(a))
+	for i := range na {
+		na[i] = byte(next())
+	}
+	nh := make([]uintptr, len(h))
+	for i := range nh {
+		nh[i] = uintptr(next())
+	}
+	_ = hash.SetSeeds(na, nh)
+}
